@@ -353,7 +353,7 @@ def rnd(rng, lo, hi, nice=None):
     x = rng.uniform(lo, hi)
     if nice is None:
         nice = rng.random() < 0.5
-    return round(x, 2) if nice else x
+    return float(f'{x:.3g}') if nice else x      # 'nice' = three significant digits (never rounds a positive value to 0)
 
 
 def gen_table(rng, n, consecutive=False):
@@ -478,6 +478,7 @@ class C07(FloatSpec):
     PROP = 'C07'
     PROOF_MODULES = ['PsiProofs.C07']
     DESIGN_REF = 'DESIGN.md §6 C07'
+    PARALLEL = 16
     TRUST = [
         'proof is over the real numbers: floating-point round-off of the dB formulas is NOT bounded by a theorem; '
         'the Float instance of the same definitions is compared with the real methods to relative 1e-12 on every run',
